@@ -14,6 +14,17 @@ fn load(case: &Value, settings: &mut Settings, dir: &Path) -> Result<TxnData, St
         let d = dir.join("txns");
         let _ = std::fs::remove_dir_all(&d);
         std::fs::create_dir_all(&d).map_err(|e| e.to_string())?;
+        // entries named `../<x>/…` live beside the journal directory (targets of symbolic links): start from scratch there too
+        for f in files {
+            let name = f.get("name").and_then(|x| x.as_str()).unwrap_or("");
+            if let Some(rest) = name.strip_prefix("../") {
+                if let Some(top) = rest.split('/').next() {
+                    if !top.is_empty() && top != ".." {
+                        let _ = std::fs::remove_dir_all(dir.join(top));
+                    }
+                }
+            }
+        }
         let mut paths = Vec::new();
         for f in files {
             let name = f.get("name").and_then(|x| x.as_str()).unwrap_or("x.txn");
